@@ -151,6 +151,18 @@ impl Integer {
     { unimplemented!() }
 
     #[verifier::external_body]
+    pub fn gcd_mut(&mut self, o: &Integer)
+        ensures final(self)@ == igcd(old(self)@, o@),
+    { unimplemented!() }
+
+    /// exact division (rug: the result is unspecified unless d divides self; division by zero panics)
+    #[verifier::external_body]
+    pub fn div_exact_ref(&self, d: &Integer) -> (r: Integer)
+        requires d@ != 0,
+        ensures self@ % d@ == 0 ==> r@ * d@ == self@,
+    { unimplemented!() }
+
+    #[verifier::external_body]
     pub fn gcd(self, o: &Integer) -> (r: Integer)
         ensures r@ == igcd(self@, o@),
     { unimplemented!() }
